@@ -61,7 +61,7 @@ let field pre fs =
   | Some s -> unhex (String.sub s n (String.length s - n))
   | None -> []
 
-let cur_pyd = ref [] and cur_pym = ref [] and cur_pre = ref []
+let cur_pyd = ref [] and cur_pym = ref [] and cur_pre = ref [] and cur_edns = ref "-"
 
 let model (f : string list) : string =
   let pyd = !cur_pyd and pym = !cur_pym in
@@ -141,10 +141,17 @@ let model (f : string list) : string =
     let tm = match mode with
       | "rq" -> TmRequest (a, key) | "rs" -> TmResponse (a, pmac, key) | "sb" -> TmSubsequent (a, pmac, key)
       | "un" -> TmUnsigned (alg_name a) | _ -> failwith "bad mode" in
-    (match finish_tsig hm pre tm p with
-     | Res.Ok (rdata, mac) ->
-       Printf.sprintf "ok pre=%s owner=%s type=250 class=255 ttl=0 rdata=%s mac=%s" (hex pre) (hex p.p_key_name)
+    let e = match !cur_edns with
+      | "-" | "" -> None
+      | es -> (match String.split_on_char ':' es with
+          | pl :: xr :: _ ->
+            Some { e_udp_payload_size = n_of_string pl; e_extended_rcode_upper_bits = n_of_int ((int_of_string xr) lsr 4) }
+          | _ -> failwith "E=") in
+    (match finish_tail hm pre e (Some (tm, p)) with
+     | Res.Ok (message, Some (rdata, mac)) ->
+       Printf.sprintf "ok pre=%s owner=%s type=250 class=255 ttl=0 rdata=%s mac=%s" (hex message) (hex p.p_key_name)
          (hex rdata) (match mac with Some m -> hex m | None -> "none")
+     | Res.Ok (_, None) -> "no-tsig"
      | Res.Err e -> "err " ^ verr_name e
      | Res.Panic -> "panic")
   | _ -> failwith "bad case line"
@@ -153,12 +160,13 @@ let oracle (_ : string list) : string = "-"
 
 let is_meta s =
   let pre p = String.length s >= String.length p && String.sub s 0 (String.length p) = p in
-  pre "pyd=" || pre "pym=" || pre "X:" || pre "T:" || pre "pre="
+  pre "pyd=" || pre "pym=" || pre "X:" || pre "T:" || pre "pre=" || pre "E="
 
 let () = run_lines (fun f0 ->
   let pyd = field "pyd=" f0 and pym = field "pym=" f0 in
   let f = Stdlib.List.filter (fun s -> not (is_meta s)) f0 in
   cur_pyd := pyd; cur_pym := pym; cur_pre := field "pre=" f0;
+  cur_edns := (match Stdlib.List.find_opt (fun x -> String.length x >= 2 && String.sub x 0 2 = "E=") f0 with Some x -> String.sub x 2 (String.length x - 2) | None -> "-");
   miss := false;
   let m = model f in
   let m = if !miss then m ^ " hmac-miss" else m in
